@@ -56,9 +56,9 @@ func TestVerifWitness_D18(t *testing.T) {
 	}
 }
 
-// DQB1: Store(src, f=r) where src has no segment for a shard (source field has no fragment there) removed the
+// Regression example for finding DF4 of group gF (= DS3 of gS; found independently by C15): Store(src, f=r) where src has no segment for a shard (source field has no fragment there) removed the
 // destination row's containers but returned before invalidating the row cache: the old row stayed readable.
-func TestVerifWitness_DQB1(t *testing.T) {
+func TestVerifC15_RegressionDF4(t *testing.T) {
 	env := vq2Start()
 	defer env.Close()
 	m := &vq2Model{}
@@ -75,5 +75,53 @@ func TestVerifWitness_DQB1(t *testing.T) {
 	}
 	if got := env.mustQuery1(t, idx, "Count(Row(f=1))"); got != uint64(0) {
 		t.Fatalf("after Store of an empty row: Count(Row(f=1)) = %v, want 0", got)
+	}
+}
+
+// DQB6: the shard list of a request was computed once, before its first call ran: a Set creating a new shard was
+// invisible to the calls after it in the same request.
+func TestVerifWitness_DQB6(t *testing.T) {
+	env := vq2Start()
+	defer env.Close()
+	m := &vq2Model{}
+	m.addField(&vq2Field{Name: "f", Kind: "set"})
+	m.addField(&vq2Field{Name: "g", Kind: "set"})
+	idx := vq2WitnessIndex(t, env, m, "")
+	defer env.drop(idx)
+	col := vq2SW + 1
+	q := fmt.Sprintf("Set(%d, f=1) Row(f=1) Count(Row(f=1))", col)
+	rs, err := env.query(idx, q)
+	if err != nil || len(rs) != 3 {
+		t.Fatalf("%s: %v %v", q, rs, err)
+	}
+	if msg := vq2CheckRow(rs[1], vq2Set{col: true}); msg != "" {
+		t.Errorf("%s on an empty index: second result: %s", q, msg)
+	}
+	if rs[2] != uint64(1) {
+		t.Errorf("%s on an empty index: third result %v, want 1", q, rs[2])
+	}
+	q = fmt.Sprintf("Set(%d, f=5) Store(Row(g=9), f=5)", 3*vq2SW+2)
+	if _, err := env.query(idx, q); err != nil {
+		t.Fatalf("%s: %v", q, err)
+	}
+	if got := vq2WitnessCols(t, env, idx, "Row(f=5)"); len(got) != 0 {
+		t.Errorf("after one request %s (g is empty): Row(f=5) = %v, want []", q, got)
+	}
+}
+
+// Regression example for finding DT1 of group gT (same root cause found independently by C15): Field.ClearBit skipped time views (skipAbove walk) and left the bit readable through time ranges.
+func TestVerifC15_RegressionDT1(t *testing.T) {
+	env := vq2Start()
+	defer env.Close()
+	m := &vq2Model{}
+	m.addField(&vq2Field{Name: "t", Kind: "time", Quantum: "YMD"})
+	idx := vq2WitnessIndex(t, env, m, "Set(0, t=2, 2016-12-31T23:00) Set(1, t=2, 2017-01-01T00:00)")
+	defer env.drop(idx)
+	if got := env.mustQuery1(t, idx, "Clear(1, t=2)"); got != true {
+		t.Errorf("Clear(1, t=2) = %v, want true (the bit was set)", got)
+	}
+	q := "Row(t=2, from='2016-01-01T00:00', to='2020-01-01T00:00')"
+	if got, want := vq2WitnessCols(t, env, idx, q), []uint64{0}; !vq2EqU64(got, want) {
+		t.Fatalf("after Set(0,t=2,2016-12-31) Set(1,t=2,2017-01-01) Clear(1,t=2): %s = %v, want %v", q, got, want)
 	}
 }
